@@ -253,7 +253,6 @@ package stor
 //@   ghost rc int = c
 //@   ghost ri uint64 = n + uint64(i)
 //@   ensures! found_where: r != 0 ==> 0 <= rc && rc < len(unbox(s.chunks.v, "[][]byte")) && r == uint64(rc) * s.chunksize + ri && ri + uint64(len(str)) <= uint64(len(cks(s)[rc]))
-//@   ensures! in_chunk: r != 0 ==> (r & (s.chunksize - 1)) + uint64(len(str)) <= uint64(len(cks(s)[r >> uint64(s.shift)]))
 //@   loop 0 invariant 0 <= c && c <= len(chunks) && n < s.chunksize && (c < len(chunks) ==> n <= uint64(len(chunks[c]))) && (c < len(chunks) ==> uint64(c) * s.chunksize + n >= off) && int(off >> uint64(s.shift)) <= c && n == (c == int(off >> uint64(s.shift)) ? (off & (s.chunksize - 1)) : 0)
 // (window: in the first chunk the search starts at the in-chunk position of off, in every later chunk at 0.
 // Completeness - no occurrence is skipped - was attempted with an uninterpreted occurrence predicate and did not discharge.)
